@@ -14,6 +14,7 @@
      sorted(<paths of one directory>)     the stable sort by last path component (sort_by fs_key)
      path.is_dir(), (path / '__init__.py').exists(), path.name, str.startswith / endswith, name[:-len(suffix)]
      importlib.machinery.all_suffixes() / EXTENSION_SUFFIXES / SOURCE_SUFFIXES    the regenerated lists of Gen/TablesC18.v
+     next((s for s in all_suffixes() if name.endswith(s)), None)    the first suffix of that list the name ends with, or None
      self.options.introspect_c_modules    False (the default; C extension modules are outside the model)
      self.introspectModule(..)            (never reached under that assumption) no event
      self.allobjects.get(mod.fullName())  the first module of r_all with that path
@@ -44,6 +45,7 @@ Inductive dexpr :=
 | DSuffixInExt                 (* suffix in importlib.machinery.EXTENSION_SUFFIXES *)
 | DSuffixInSrc                 (* suffix in importlib.machinery.SOURCE_SUFFIXES *)
 | DOptIntrospect               (* self.options.introspect_c_modules *)
+| DSuffixIsNone                (* suffix is None   (after DFirstSuffix) *)
 | DNot (e : dexpr) | DAnd (a b : dexpr) | DOr (a b : dexpr).
 
 Inductive dstmt :=
@@ -56,6 +58,7 @@ Inductive dstmt :=
 | DRecurse                     (* self.addPackage(path, package) *)
 | DAddModule                   (* self.addModuleFromPath(path, package) *)
 | DForSuffixes (body : dstmt)  (* for suffix in importlib.machinery.all_suffixes(): body *)
+| DFirstSuffix                 (* suffix = next((s for s in importlib.machinery.all_suffixes() if name.endswith(s)), None) *)
 | DStrip                       (* module_name = name[:-len(suffix)] *)
 | DAnalyzeMod                  (* self.analyzeModule(path, module_name, package) *)
 | DIntrospect                  (* self.introspectModule(path, module_name, package) *)
@@ -92,6 +95,7 @@ Section DExec.
     | DSuffixInExt => match d_suffix en with Some s => mem_text s extension_suffixes | None => false end
     | DSuffixInSrc => match d_suffix en with Some s => mem_text s source_suffixes | None => false end
     | DOptIntrospect => false
+    | DSuffixIsNone => match d_suffix en with None => true | Some _ => false end
     | DNot a => negb (deval en a)
     | DAnd a b => deval en a && deval en b
     | DOr a b => deval en a || deval en b
@@ -141,6 +145,8 @@ Section DExec.
         let '(ev, fl) := run_loop (fun s => dexec body (mkDenv (d_entry en) (d_pkg en) (Some s) (d_modname en)))
                                   all_suffixes in
         (ev, en, fl)
+    | DFirstSuffix =>
+        ([], mkDenv (d_entry en) (d_pkg en) (first_suffix all_suffixes cname) (d_modname en), FGo)
     | DStrip =>
         match d_suffix en with
         | Some s => ([], mkDenv (d_entry en) (d_pkg en) (d_suffix en) (Some (strip_suffix cname s)), FGo)
